@@ -5,7 +5,7 @@
    Definitions only. *)
 From Coq Require Import String.
 From Coq Require Import List Bool Arith.
-From Asphalt Require Import Gen.Gen_addres.
+From Asphalt Require Import Gen.Gen_addres Gen.Gen_lookup.
 Import ListNotations.
 Open Scope string_scope.
 Open Scope list_scope.
@@ -182,14 +182,21 @@ Definition set_blockexc (x : ctx) v := Ctx (cid x) (parent x) (life x) (res x) (
 Definition free_types (x : ctx) (f : factory) : list ty :=
   filter (fun t => negb (taken (res x) (fname f) t)) (ftypes f).
 
-Definition store_generated (x : ctx) (f : factory) (v : value) : ctx :=
-  let free := free_types x f in
-  let c := Cont v free (fname f) (fdesc f) true in
+(* the three decisions are read from the source on every run (Gen/Gen_lookup.v), separately for the
+   synchronous and the asynchronous lookup: under which of the factory's types the product is stored, whether
+   the container is marked as generated, whether the event is dispatched only when something was stored *)
+Definition store_generated_as (free_only marked iff_stored : bool) (x : ctx) (f : factory) (v : value) : ctx :=
+  let free := if free_only then free_types x f else ftypes f in
+  let c := Cont v free (fname f) (fdesc f) marked in
   match free with
-  | [] => x
+  | [] => if iff_stored then x else set_evlog x (evlog x ++ [REv [] (fname f) (fdesc f) false])
   | _ => set_evlog (set_res x (ins_all free (fname f) c (res x)))
                    (evlog x ++ [REv free (fname f) (fdesc f) false])
   end.
+Definition store_generated : ctx -> factory -> value -> ctx :=
+  store_generated_as nw_free_types_only nw_marked_generated nw_dispatch_iff_stored.
+Definition store_generated_async : ctx -> factory -> value -> ctx :=
+  store_generated_as as_free_types_only as_marked_generated as_dispatch_iff_stored.
 
 (* the factory body starts: a new object identity is drawn and the invocation is counted *)
 (* within one context a factory is identified by its first key (the conflict check makes it
@@ -313,10 +320,10 @@ Definition local_step (a : action) (x : ctx) : ctx * out :=
           match find (t, name) (facs x) with
           | Some f =>
               (* another task is generating this resource: wait for it, do not call the factory *)
-              if generating x (fkey f) then (add_waiter x tok (t, name) (fkey f), Pending) else
+              if as_inflight_guard && generating x (fkey f) then (add_waiter x tok (t, name) (fkey f), Pending) else
               match fkind_of f with
               | FAsyncSusp => let '(x1, v) := start_factory x f in (add_pending x1 tok f v (t, name), Pending)
-              | _ => let '(x1, v) := start_factory x f in (store_generated x1 f v, Val v)
+              | _ => let '(x1, v) := start_factory x f in (store_generated_async x1 f v, Val v)
               end
           | None => (x, not_found optional)
           end
@@ -326,8 +333,10 @@ Definition local_step (a : action) (x : ctx) : ctx * out :=
       | Some (f, v, k) =>
           (* no lifecycle re-check after the await, as in the code; the caller receives what
              the requested key resolves to now (a resource added meanwhile wins) *)
-          let x' := store_generated (del_pending x tok) f v in
-          (x', match find k (res x') with Some c => Val (cvalue c) | None => Invalid end)
+          let x' := store_generated_async (del_pending x tok) f v in
+          (x', if as_returns_what_the_pair_resolves_to
+               then match find k (res x') with Some c => Val (cvalue c) | None => Invalid end
+               else Val v)
       | None =>
           match nfind tok (waiters x) with
           | Some (k, fk) =>
@@ -356,7 +365,8 @@ Definition root_ctx (i : nat) : ctx := Ctx i None Inactive [] [] [] [] 0 [] [] [
 
 (* Context.__init__: copy the parent's non-generated resources and its factory table *)
 Definition snapshot (i : nat) (p : ctx) : ctx :=
-  Ctx i (Some (cid p)) Inactive (filter (fun kc => negb (cgen (snd kc))) (res p)) (facs p)
+  Ctx i (Some (cid p)) Inactive
+      (if init_skips_generated then filter (fun kc => negb (cgen (snd kc))) (res p) else res p) (facs p)
       [] [] 0 [] [] [] false.
 
 Fixpoint update (s : state) (c : nat) (x : ctx) : state :=
